@@ -35,7 +35,12 @@ type fOld struct {
 // abstract entries and the number of queries evaluated.
 func fHistory(r *rng, w *fWorld, nq int) (diff string, entries []*fEntry, t *fTruth) {
 	t = w.truth()
-	pool := fGenQueryPool(r, w, 6+r.n(12))
+	np := 6 + r.n(12)
+	if r.chance(1, 8) {
+		// N2: many DISTINCT queries in one history (more than 40 / 64 / 256 / 300: bounded memos reach their bound)
+		np = n2Above(r, 40, 600)
+	}
+	pool := fGenQueryPool(r, w, np)
 	main := fBuild(w.storage(nil, false))
 	defer func() { _ = main.s.Close() }()
 	var olds []fOld
@@ -44,8 +49,20 @@ func fHistory(r *rng, w *fWorld, nq int) (diff string, entries []*fEntry, t *fTr
 			diff = fmt.Sprintf(f, a...)
 		}
 	}
+	var prev *fQuery
 	for i := 0; i < nq; i++ {
 		q := pick(r, pool)
+		if prev != nil && r.chance(1, 3) {
+			// N2: right after a query, another member of its family (same subject, ONE other datum) -- or the same query again
+			var fam []*fQuery
+			for _, c := range pool {
+				if c.fam == prev.fam {
+					fam = append(fam, c)
+				}
+			}
+			q = pick(r, fam)
+		}
+		prev = q
 		ans, obj := main.answer(q)
 		size := main.s.GetCacheSize()
 		if strings.Contains(ans, fLawMarker) {
@@ -101,7 +118,18 @@ func c13GenHist(r *rng, n int, w *bufio.Writer) {
 		if nq < 10 {
 			nq = 10
 		}
-		world := fGenWorld(r, 30, r.n(3))
+		maxLines := 30
+		if r.chance(1, 10) {
+			// N2: lists of more than 40 / 64 / 256 / 300 lines (shorter histories: every query also builds a fresh engine)
+			maxLines = n2Above(r, 40, 400)
+			if nq > 120 {
+				nq = 120
+			}
+		}
+		world := fGenWorld(r, maxLines, r.n(3))
+		if r.chance(1, 3) {
+			fAddDomainCluster(r, world)
+		}
 		diff, entries, t := fHistory(r, world, nq)
 		ans := "T"
 		note := fmt.Sprintf("history of %d queries; %s", nq, world.describe())
